@@ -281,7 +281,7 @@ CHECKS['C10']['text'] = CHECKS['C10']['text'] + (
     " Known finding F13 (recorded in known_findings.txt, replayed on every run, printed as KNOWN-FINDING): for two-site DMRG with a genuine truncation "
     "(tol_split > 0) the clause 'energy of the returned state = last reported energy' is false on the real code (the Ritz value is reported before the "
     "truncating split); it is proved and demanded for tol_split = 0 and for single-site DMRG.")
-for _p in ('C06', 'C07'):
+for _p in ('C06', 'C07', 'C17'):
     CHECKS[_p]['text'] = CHECKS[_p]['text'] + (
         " Known finding F14 (known_findings.txt, replayed on every run, printed as KNOWN-FINDING): on inputs whose documented operator is identically zero the "
         "chain-based constructors raise a bare AssertionError instead of returning the zero operator; the totality theorems characterise exactly this "
